@@ -299,6 +299,11 @@ class MessageManager(interfaces.TokenInterface, interfaces.MessageManager):
         # first iteration is sure to happen, others happen only if the enqueued
         # messages were NONs
         while not any(r == remote for r, mid in self._active_exchanges.keys()):
+            if remote not in self._backlogs:
+                # Sending the previous backlog item failed inside the send
+                # call; dispatch_error has already dropped the whole backlog
+                # (and failed its requests).
+                break
             if self._backlogs[remote] != []:
                 next_message, messageerror_monitor = self._backlogs[remote].pop(0)
                 self._send_initially(next_message, messageerror_monitor)
